@@ -10,7 +10,12 @@
      SAdd a b            Add(a, b)
      SAbs v              Abs(v)
      SOpaque v           a value-preserving computation on v for which the optimizer has no partial evaluator
-                         (the harness uses Neg(Neg(v))); ordinary constant folding still applies when v is constant *)
+                         (the harness uses Neg(Neg(v)), Unsqueeze(Squeeze(v)), Cast to INT32 and back, Reshape to [1,n] and
+                         back); ordinary constant folding still applies when v is constant
+     SKeep v             a value-preserving node whose evaluator FORWARDS the recorded value: Squeeze (_propagate_shape_value),
+                         Reshape whose target has <= 1 entries (reshape(): propagate), Identity (sym value = the input value,
+                         consumers are re-pointed), Cast to the element type the value already has (replaced by Identity).
+                         The tensor keeps its elements in row-major order; only its rank may change. *)
 From Coq Require Import String ZArith List Bool DecimalString.
 Require Import OV.Shape.SymDim.
 Import ListNotations.
@@ -23,7 +28,8 @@ Inductive sv :=
 | SConcat (a b : sv)
 | SAdd (a b : sv)
 | SAbs (v : sv)
-| SOpaque (v : sv).
+| SOpaque (v : sv)
+| SKeep (v : sv).
 
 (* ---- Python list slicing l[start:stop] (step 1); the ONNX Shape operator clamps the same way -- *)
 Definition clamp_index (len i : Z) : Z :=
@@ -99,6 +105,7 @@ Fixpoint sv_sym (e : sv) : option (list dim) :=
                  | Some s => if all_int s then Some s else None      (* an all-int value is a constant: folded *)
                  | None => None
                  end
+  | SKeep v => sv_sym v
   end.
 
 (* the same with the Add evaluator as shipped *)
@@ -122,6 +129,7 @@ Fixpoint sv_sym_old (e : sv) : option (list dim) :=
                  | Some s => if all_int s then Some s else None      (* an all-int value is a constant: folded *)
                  | None => None
                  end
+  | SKeep v => sv_sym_old v
   end.
 
 (* the decisions (sym = what the optimizer recorded) *)
@@ -152,6 +160,7 @@ Fixpoint plus_closed (rho : valuation) (e : sv) : Prop :=
   | SGather v _ => plus_closed rho v
   | SAbs v => plus_closed rho v
   | SOpaque v => plus_closed rho v
+  | SKeep v => plus_closed rho v
   | SConcat a b => plus_closed rho a /\ plus_closed rho b
   | SAdd a b => plus_closed rho a /\ plus_closed rho b /\
       match sv_sym a, sv_sym b with
@@ -173,7 +182,8 @@ Inductive sv_runs (rho : valuation) : sv -> list Z -> Prop :=
 | RConcat : forall a b ca cb, sv_runs rho a ca -> sv_runs rho b cb -> sv_runs rho (SConcat a b) (ca ++ cb)
 | RAdd : forall a b ca cb, sv_runs rho a [ca] -> sv_runs rho b [cb] -> sv_runs rho (SAdd a b) [ca + cb]
 | RAbs : forall v c, sv_runs rho v c -> sv_runs rho (SAbs v) (map Z.abs c)
-| ROpaque : forall v c, sv_runs rho v c -> sv_runs rho (SOpaque v) c.
+| ROpaque : forall v c, sv_runs rho v c -> sv_runs rho (SOpaque v) c
+| RKeep : forall v c, sv_runs rho v c -> sv_runs rho (SKeep v) c.
 
 (* ---- ONNX Reshape: output shape for input shape cx and requested shape c --------------------- *)
 Fixpoint zprod (l : list Z) : Z := match l with [] => 1 | a :: t => a * zprod t end.
